@@ -112,6 +112,10 @@ def rp_rule(chk, rule: str, repo, fn, what: str, min_carried: int = 1):
         for t in tg:
             if isinstance(t, ast.Attribute) and isinstance(t.value, ast.Name) and t.value.id == "self":
                 state_written_in_loop.add(t.attr)
+        # ... and containers changed in place (self._lines.append(line), .clear(), ...)
+        if isinstance(n, ast.Call) and isinstance(n.func, ast.Attribute) and n.func.attr in ("append", "extend", "clear", "pop", "popleft", "appendleft", "insert", "add", "discard", "remove", "update") \
+                and isinstance(n.func.value, ast.Attribute) and isinstance(n.func.value.value, ast.Name) and n.func.value.value.id == "self":
+            state_written_in_loop.add(n.func.value.attr)
     for name, c in sorted(carried.items()):
         if not c.loop_defs:
             # constant during one call.  RP4: it must not be a snapshot of parser state that the loop itself updates
